@@ -224,6 +224,18 @@ def verifyAnswer (cache : Option (String × Except VDecErr VerifierM)) (toks : L
           | .piLen => ("err:pilen", cache)
           | .reject => ("err:verify" ++ canon, cache)
     | _, _, _, _ => ("bad-request", cache)
+  | ["chals", ver, _x, vhex, pis, phex] =>
+    -- the challenges the (current) transcript order yields for this statement and proof; used by the search for a
+    -- failing input to build proofs that depend on a challenge (e.g. shifted opening commitments)
+    match verName? ver, parseList? pis, parseBytes? phex, parseBytes? vhex with
+    | some ver, some pis, some pb, some vb =>
+      match VerifierM.fromBytes vb, ProofM.fromBytes? pb with
+      | .ok v, some p =>
+        let ch := verifierChallenges v.label v.vk v.constraints (ver == .v3) pis p
+        let gen := match Domain.new? v.vk.n with | some d => d.groupGen | none => 0
+        (s!"z={toHex ch.z} u={toHex ch.u} v={toHex ch.v} vw={toHex ch.vw} alpha={toHex ch.alpha} beta={toHex ch.beta} gamma={toHex ch.gamma} n={v.vk.n} omega={toHex gen} g={showBytes v.ok.g.toCompressed}", cache)
+      | _, _ => ("err", cache)
+    | _, _, _, _ => ("bad-request", cache)
   | ["vroundtrip", vhex] =>
     match parseBytes? vhex with
     | some vb => match VerifierM.fromBytes vb with
